@@ -186,9 +186,46 @@ impl<'b> LuaDocParser<'_, 'b> {
     //@@ LuaDocParser::origin_text
     //@@ LuaDocParser::set_parser_state
     //@@ LuaDocParser::set_current_token_kind
+    //@@ LuaDocParser::current_token_text
+    //@@ LuaDocParser::set_lexer_state
+    //@@ LuaDocParser::re_calc_detail
+    //@@ LuaDocParser::re_calc_cast_type
+    //@@ LuaDocParser::bump_to_end
+    //@@ LuaDocParser::parse
 }
 
 //@@ is_invalid_kind
+
+// ---------------------------------------------------------------------------------------------
+// D3: grammar/doc/mod.rs
+// ---------------------------------------------------------------------------------------------
+/// ASSUMED frame contract of the tag grammar (`grammar/doc/tag.rs`, `grammar/doc/types.rs`, ~1500 lines, not extracted):
+/// "preserves the driver invariant, does not un-eat". Basis: the grammar reaches the events, the lexer and the current token
+/// only through the driver functions and the marker API proved in this unit (scan: `get_events()`, `lexer.reset`,
+/// `current_token_range =`, `current_token =`, `origin_token_index` have no writer outside lua_doc_parser.rs / marker.rs;
+/// `p.lexer` is read in types.rs (`p.lexer.state`, `p.lexer.clone()`) but never written), each of which establishes `gstep`,
+/// and it calls them within their preconditions (`set_current_token_kind` at 2 sites, both on a TkName; `bump`,
+/// `set_lexer_state`, `set_parser_state` have none beyond the invariant). Not proved.
+#[verifier::external_body]
+pub fn parse_tag(p: &mut LuaDocParser)
+    requires gram_pre(old(p)),
+    ensures gram_post(old(p), final(p)),
+{ unimplemented!() }
+
+/// ASSUMED: same frame contract (see `parse_tag`)
+#[verifier::external_body]
+pub fn parse_long_tag(p: &mut LuaDocParser)
+    requires gram_pre(old(p)),
+    ensures gram_post(old(p), final(p)),
+{ unimplemented!() }
+
+//@@ parse_comment
+
+//@@ parse_docs
+
+//@@ parse_description
+
+//@@ if_token_bump
 
 } // verus!
 fn main() {}
